@@ -288,8 +288,12 @@ func (c *Ctx) CheckProperty(id string) (*Result, error) {
 
 	// evidence
 	level := cfg.Level
-	if knownHit > 0 && level == "proof" {
+	if (knownHit > 0 || discharged == 0 || len(undis) > 0) && level == "proof" {
+		// a proof-level claim needs every obligation discharged; otherwise the run is reported as 'other' with the explanation
 		level = "other"
+	}
+	if cfg.Assumptions == nil {
+		cfg.Assumptions = []string{}
 	}
 	var samples []any
 	for i, o := range res.Obls {
